@@ -8,8 +8,13 @@
    either (C01_batch_supply: no issuance of an existing custom denomination outside faucets).
    and, over the three settlement phases of a whole block and all pools, a liquidity token - counting the
    tokens parked in other pools' reserves - that is backed before is backed after ([C16_settlement_keeps_backing]).
-   NOT proved: the composition over whole histories (faucets of test networks can mint any denomination). *)
-From MelVerif Require Import STF.Model STF.Proofs.Supply STF.Proofs.Pool STF.Proofs.SealCoins STF.Proofs.BatchSupply STF.Proofs.SealSupply STF.Proofs.SealLift STF.Proofs.Witness STF.Proofs.Witness2.
+   Both clauses together are an invariant of sealing and of accepted batches ([C16_seal_invariant],
+   [C16_batch_invariant]): a pool that is live (both reserves and the recorded liquidity >= 1) and whose token
+   is backed with room to spare - as the built-in pools are from their creation, with 10^9 that nobody owns - is
+   live and backed with the same room afterwards; the built-in pools exist after every seal.
+   NOT proved: that no faucet of a test network ever mints a liquidity token (it is a hypothesis of the batch
+   invariant: faucets of test networks can mint any denomination). *)
+From MelVerif Require Import STF.Model STF.Proofs.Supply STF.Proofs.Pool STF.Proofs.SealCoins STF.Proofs.BatchSupply STF.Proofs.SealSupply STF.Proofs.SealLift STF.Proofs.SealInv STF.Proofs.HashFacts STF.Proofs.Witness STF.Proofs.Witness2 STF.Proofs.Witness3 STF.Proofs.Witness4.
 Open Scope N_scope.
 
 (* swapping leaves both reserves of a live pool positive and the issued liquidity unchanged *)
@@ -153,3 +158,65 @@ Theorem C16_seal_keeps_custom_backing : forall K, NoDup (map poolkey_code K) -> 
   settles K SO (Custom h) s s'.
 Proof. exact seal_settles_custom. Qed.
 Print Assumptions C16_seal_keeps_custom_backing.
+
+(* ---- the first clause.  [live p]: both reserves and the recorded liquidity are at least 1. *)
+(* whatever is swapped, a live pool stays live and swap_many does not panic (saturating arithmetic followed,
+   no overflow hypothesis) *)
+Theorem C16_swap_keeps_live : forall p l r, live p -> l <= MAX128 -> r <= MAX128 ->
+  exists p' lw rw, swap_many p l r = Ok (p', lw, rw) /\ live p'.
+Proof. exact swap_many_live. Qed.
+Print Assumptions C16_swap_keeps_live.
+
+(* the bootstrap makes the built-in pools exist *)
+Theorem C16_builtins_exist : forall s,
+  (exists p, get_pool (create_builtins s) (poolkey_new Mel Sym) = Some p) /\
+  (exists p, get_pool (create_builtins s) (poolkey_new Mel Erg) = Some p).
+Proof. exact create_builtins_exist. Qed.
+Print Assumptions C16_builtins_exist.
+
+(* both clauses as an invariant of sealing *)
+Theorem C16_seal_invariant : forall K, NoDup (map poolkey_code K) -> forall SO, In MS K /\ In ME K /\ In ES K ->
+  (forall k1 k2, In k1 K -> In k2 K -> LDk SO k1 = LDk SO k2 -> k1 = k2) ->
+  forall s a s' k p,
+  seal SO s a = Ok s' -> In k K -> get_pool s k = Some p -> live p ->
+  coin_supply (LDk SO k) (s_coins s) + psum K (LDk SO k) s + 1 <= p_liqs p ->
+  legacy_net s && (s_height s <? 978392) = false ->
+  (forall t k1, In t (sorted_txs s) -> tx_pool t = Some k1 -> In k1 K /\ LDk SO k1 <> fst k1 /\ LDk SO k1 <> snd k1) ->
+  NoDup (key_pairs (sorted_txs s)) ->
+  (forall t c, In t (sorted_txs s) -> s_coins s !! key0 t = Some c -> as_declared c (out0 t)) ->
+  (forall t c, In t (sorted_txs s) -> s_coins s !! key1 t = Some c -> as_declared c (out1 t)) ->
+  nsum (map (fun t => cd_value (out0 t)) (sorted_txs s)) < U128 ->
+  nsum (map (fun t => cd_value (out1 t)) (sorted_txs s)) < U128 ->
+  (forall s2 s3, process_swaps (create_builtins s) = Ok s2 -> process_deposits SO s2 = Ok s3 ->
+     (forall k1 p'' m, In k1 K ->
+        pool_deposit (pool_at s2 k1)
+          (nsum (map (fun t => cd_value (out0 t)) (txs_for_pool (List.filter (is_deposit_request s2) (sorted_txs s2)) k1)))
+          (nsum (map (fun t => cd_value (out1 t)) (txs_for_pool (List.filter (is_deposit_request s2) (sorted_txs s2)) k1))) = Ok (p'', m) ->
+        p_liqs (pool_at s2 k1) + m < U128) /\
+     (forall k1 p1, In k1 K -> get_pool s3 k1 = Some p1 -> p_lefts p1 < U128 /\ p_rights p1 < U128)) ->
+  exists p', get_pool s' k = Some p' /\ live p' /\
+    coin_supply (LDk SO k) (s_coins s') + psum K (LDk SO k) s' + 1 <= p_liqs p'.
+Proof. exact seal_keeps_backed_pool_live. Qed.
+Print Assumptions C16_seal_invariant.
+
+(* and of every accepted batch that issues none of the token (no faucet / new-token output of that name) *)
+Theorem C16_batch_invariant : forall K SO s lh txs s' k p,
+  apply_tx_batch SO s lh txs = Ok s' -> HashOK SO s txs ->
+  batch_issuance (LDk SO k) txs = 0 ->
+  get_pool s k = Some p ->
+  coin_supply (LDk SO k) (s_coins s) + psum K (LDk SO k) s + 1 <= p_liqs p ->
+  get_pool s' k = Some p /\ coin_supply (LDk SO k) (s_coins s') + psum K (LDk SO k) s' + 1 <= p_liqs p.
+Proof. exact batch_keeps_backed. Qed.
+Print Assumptions C16_batch_invariant.
+
+(* the premises hold on the concrete block of STF/Proofs/Witness3.v, which seals as a whole *)
+Example C16_invariant_witness :
+  NoDup (map poolkey_code w_K3) /\ (In MS w_K3 /\ In ME w_K3 /\ In ES w_K3) /\
+  (forall k1 k2, In k1 w_K3 -> In k2 w_K3 -> LDk w_oracle k1 = LDk w_oracle k2 -> k1 = k2) /\
+  (exists s', seal w_oracle w_block_state None = Ok s') /\
+  In MS w_K3 /\ get_pool w_block_state MS = Some w_pool /\ live w_pool /\
+  coin_supply (LDk w_oracle MS) (s_coins w_block_state) + psum w_K3 (LDk w_oracle MS) w_block_state + 1 <= p_liqs w_pool.
+Proof.
+  split; [exact w_K3_codes|]. split; [exact w_K3_builtins|]. split; [exact w_LD_inj|]. split; [exact w_seal_ok|]. exact w_backed.
+Qed.
+
